@@ -475,9 +475,58 @@ pub fn run(cfg: &Cfg, rep: &mut Report) {
 
     // ---- (F) composite distributions draw components in order
     rep.run_stream(cfg, 5, "composites", cfg.n(500_000, 50_000_000), |rng, _, rep| {
-        let s = rng.u64() | 1;
+        // states: random, or solved so that the first two draws consume
+        // mantissas at the very top (where start + unit·width rounds up to the
+        // end of the range) or at the very bottom
+        let s = if rng.chance(1, 2) {
+            rng.u64() | 1
+        } else {
+            let pick_m = |rng: &mut Rng| match rng.below(3) {
+                0 => 0x7f_ffff - rng.below(512),
+                1 => rng.below(512),
+                _ => rng.below(1 << 23),
+            };
+            let (ma, mb) = (pick_m(rng), pick_m(rng));
+            match solve_states_top(&[ma, mb], 0) {
+                Some(sol) => {
+                    let mut st = sol.0;
+                    for b in &sol.1 {
+                        if rng.bool() {
+                            st ^= b;
+                        }
+                    }
+                    rep.count("composites.states_solved_for_extreme_mantissas");
+                    if st == 0 { 1 } else { st }
+                }
+                None => rng.u64() | 1,
+            }
+        };
         rep.case(s, true);
-        let (a, b, c, d, e, f) = (rng.f32_in(-5.0, 0.0), rng.f32_in(0.1, 5.0), rng.f32_in(-9.0, -1.0), rng.f32_in(2.0, 3.0), rng.f32_in(0.0, 1.0), rng.f32_in(1.5, 9.0));
+        // ranges: around the origin, or narrow and far from it (any sign),
+        // where a component computed as start + offset instead of by the
+        // scalar sampler rounds onto the excluded end
+        let far = rng.chance(1, 2);
+        let mut range = |rng: &mut Rng, lo: f32, hi: f32, lo2: f32, hi2: f32| -> (f32, f32) {
+            if !far {
+                return (rng.f32_in(lo, hi), rng.f32_in(lo2, hi2));
+            }
+            let base = rng.pick(&[10.0f32, 100.0, 1000.0, 1e4, 1e5, 1e6]) * rng.f32_in(1.0, 9.0) * if rng.bool() { 1.0 } else { -1.0 };
+            let ulp = (base.abs() * 1.1920929e-7).max(1e-30);
+            let width = match rng.below(4) {
+                0 => 1.0,
+                1 => rng.f32_in(0.25, 4.0),
+                2 => ulp * (2 + rng.below(64)) as f32,
+                _ => ulp * 4096.0,
+            };
+            let end = base + width;
+            if end > base { (base, end) } else { (base, rftk::next_up(base)) }
+        };
+        let (a, b) = range(rng, -5.0, 0.0, 0.1, 5.0);
+        let (c, d) = range(rng, -9.0, -1.0, 2.0, 3.0);
+        let (e, f) = range(rng, 0.0, 1.0, 1.5, 9.0);
+        if far {
+            rep.count("composites.narrow_ranges_far_from_the_origin");
+        }
         let scalar = {
             let mut g = Xorshift64(s);
             [Uniform(a..b).sample(&mut g), Uniform(c..d).sample(&mut g), Uniform(e..f).sample(&mut g)]
@@ -497,6 +546,16 @@ pub fn run(cfg: &Cfg, rep: &mut Report) {
             rep.violation(
                 "rng.composite_component_order",
                 format!("array {arr:?} / vector {:?} / vec2 {:?} / point {:?} / tuple {tup:?} vs scalar draws in order {scalar:?}, {tup_scalar:?}", vec.0, v2.0, p2.0),
+                Json::obj().set("state", format!("{s:#x}")),
+            );
+            return;
+        }
+        // every component inside its own half-open range
+        let inside = |x: f32, lo: f32, hi: f32| x >= lo && x < hi;
+        if !(inside(arr[0], a, b) && inside(arr[1], c, d) && inside(arr[2], e, f) && inside(vec.0[0], a, b) && inside(vec.0[1], c, d) && inside(vec.0[2], e, f) && inside(v2.0[0], a, b) && inside(v2.0[1], c, d) && inside(p2.0[0], a, b) && inside(p2.0[1], c, d)) {
+            rep.violation(
+                "rng.float_sample_out_of_range",
+                format!("a component of array {arr:?} / vector {:?} / vec2 {:?} / point {:?} lies outside its range [{a},{b}) × [{c},{d}) × [{e},{f})", vec.0, v2.0, p2.0),
                 Json::obj().set("state", format!("{s:#x}")),
             );
             return;
@@ -553,4 +612,6 @@ pub fn run(cfg: &Cfg, rep: &mut Report) {
     rep.floor("float_random_range_samples.top_mantissa", 100_000);
     rep.floor("samples_iterator_checks", 100_000);
     rep.floor("composite_checks", 200_000);
+    rep.floor("composites.narrow_ranges_far_from_the_origin", 100_000);
+    rep.floor("composites.states_solved_for_extreme_mantissas", 100_000);
 }
